@@ -114,6 +114,19 @@ class NotApplicable(Exception):
     pass
 
 
+def hop_text(x):
+    """a quantity written with to_string() and read with from_string(); texts from_string refuses carry no verdict"""
+    if not isinstance(x, unyt_quantity):
+        raise NotApplicable
+    text = x.to_string()
+    try:
+        return unyt_quantity.from_string(text, unit_registry=x.units.registry)
+    except ValueError as e:
+        if "invalid quantity expression" in str(e):
+            raise NotApplicable from None
+        raise
+
+
 def _json_hop(x):
     reg = x.registry if isinstance(x, Unit) else x.units.registry
     r2 = UnitRegistry.from_json(reg.to_json())
@@ -165,11 +178,12 @@ HOPS = {
     "repr-rebuild": lambda x: rebuild(x, repr(x if isinstance(x, Unit) else x.units), x.registry if isinstance(x, Unit) else x.units.registry),
     "json-registry": _json_hop,
     "savetxt-loadtxt": hop_savetxt,
+    "to_string-from_string": lambda x: hop_text(x),
 }
 HOPS_EXTRA = {"pickle3": 3, "pickle4": 4}  # protocols 0 and 1 are refused by SymPy itself (NotImplementedError): not unyt behaviour
 for _n, _p in HOPS_EXTRA.items():
     HOPS[_n] = lambda x, _p=_p: pickle.loads(pickle.dumps(x, protocol=_p))
-QUICK_HOPS = ["json-reload-after-sibling-edit", "unpickle-after-sibling-edit", "pickle2", "pickle5", "pickle-container", "copy.copy", "copy.deepcopy", ".copy()", "copy(deep)", "np.copy", "str-rebuild", "json-registry", "savetxt-loadtxt"]
+QUICK_HOPS = ["json-reload-after-sibling-edit", "unpickle-after-sibling-edit", "pickle2", "pickle5", "pickle-container", "copy.copy", "copy.deepcopy", ".copy()", "copy(deep)", "np.copy", "str-rebuild", "json-registry", "savetxt-loadtxt", "to_string-from_string"]
 
 
 def _na():
